@@ -94,6 +94,11 @@ def case_linear(c):
             d3 = t.disp(g3).to(F64)
             out["disp_grid"] = grid_out(g3)
             out["disp_other"] = [[d3[(k, slice(None)) + tuple(reversed(idx))].tolist() for idx in c["lattice_other"]] for k in range(d3.shape[0])]
+        if c.get("disp_any"):
+            g4 = mk_grid(c["disp_any"])
+            d4 = t.disp(g4).to(F64)
+            out["disp_any_grid"] = grid_out(g4)
+            out["disp_any"] = [[d4[(k, slice(None)) + tuple(reversed(idx))].tolist() for idx in c["lattice_any"]] for k in range(d4.shape[0])]
         out["points_world"] = t.points(T(c["world_points"]), axes=Axes.WORLD).tolist()
         pa = c["points_api"]
         g1 = mk_grid(pa["grid"]) if pa.get("grid") else None
